@@ -448,13 +448,16 @@ def validated_by_unpack(fn, st):
 
 def allocation_rule(rep, repo, cg, seen):
     ctl = positive_control()
-    if ctl != ["comprehension-without-read", "materialised-range", "repeat", "sized-buffer"]:
+    if ctl != ["comprehension-without-read", "materialised-range", "padded-buffer", "repeat", "sized-buffer"]:
         raise AnalysisError("positive control failed for the sized-allocation rule: %s" % ctl)
     rep.extra["positive_control_sized_allocations"] = ctl
     nf = ntaint = 0
+    from ..alloc import derive_sources, INT_SOURCES
+    sources = derive_sources({q: repo.functions[q][1] for q in seen})
+    rep.extra["functions_returning_a_stream_integer"] = sorted(sources - set(INT_SOURCES))
     for q in sorted(seen):
         m, fn = repo.functions[q]
-        ct = CountTaint(fn)
+        ct = CountTaint(fn, sources)
         nf += 1
         if ct.tainted:
             ntaint += 1
